@@ -18,6 +18,7 @@ import (
 	"path/filepath"
 	"runtime"
 	"runtime/debug"
+	"runtime/pprof"
 	"sort"
 	"strconv"
 	"strings"
@@ -738,6 +739,9 @@ func run(e *harness.Env) {
 		os.Exit(2)
 	}
 	debug.SetMaxStack(512 << 20)
+	// the live heap of a worker is a few MB: collect less often, but stay far below the address-space limit
+	debug.SetGCPercent(2000)
+	debug.SetMemoryLimit(1 << 30)
 	e.Rule = ruleText(e.Thorough())
 	e.Assumptions = []string{
 		"the budget instrumentation (cmd/instr -budgets) preserves behaviour: the instrumented tree passes tabula's own test suite",
@@ -746,6 +750,11 @@ func run(e *harness.Env) {
 	}
 	dir := harness.Scratch()
 	defer os.RemoveAll(dir)
+	if pf := os.Getenv("C02_PROF"); pf != "" { // development aid
+		f, _ := os.Create(fmt.Sprintf("%s.%d", pf, os.Getpid()))
+		pprof.StartCPUProfile(f)
+		defer pprof.StopCPUProfile()
+	}
 	r := &runner{e: e, dir: dir}
 	bases := allBases()
 	var bis []*baseInfo
@@ -777,6 +786,7 @@ func run(e *harness.Env) {
 		}
 		r.enumerate(bi)
 	}
+	pprof.StopCPUProfile()
 	e.Max("case_ticks_max", r.maxTicks)
 	e.Max("case_depth_max", int64(r.maxDepth))
 	os.RemoveAll(dir)
